@@ -490,6 +490,17 @@ def run(pid, tier, replay=None):
             if r7.violated:
                 raise tlc.MachineryError("MC_LedgerForks7 violated %s" % r7.violated)
             hists = tlc.tagged_json(r7, "HIST")
+            # the fork-choice rule as an inductive invariant, discharged symbolically by Apalache for all trees of 13 blocks
+            apa = {}
+            for nm, args in (("base", ["--init=Init", "--inv=IndInv", "--length=0"]),
+                             ("step", ["--init=IndInv", "--inv=IndInv", "--length=1"])):
+                v, wall, tail = tlc.apalache("ForkChoiceInd", args, timeout=900)
+                apa[nm] = {"verdict": v, "wall_s": round(wall, 1)}
+                if v == "error":
+                    raise tlc.MachineryError("ForkChoiceInd: Apalache refutes the inductive invariant (%s): model error\n%s" % (nm, tail))
+                if v != "ok":
+                    chk.notes.append("ForkChoiceInd %s: Apalache %s after %.0fs (not counted)" % (nm, v, wall))
+            chk.extra["apalache_inductive_fork_choice"] = apa
         if len(hists) < 700:
             raise tlc.MachineryError("expected all 720 histories, got %d" % len(hists))
         for h in hists:
